@@ -307,13 +307,6 @@ func responseCase(c *ev.Check, w *world, st int, h hdr, b rbody, m string) {
 		if st == 304 && k == "Content-Type" {
 			continue // the stub upstream (net/http server) itself suppresses it on 304: it was never sent
 		}
-		if k == "Cache-Control" {
-			// the gateway's WithCacheControl default must not displace the upstream's value
-			if !contains(have, vs[0]) {
-				viol("header-changed", "upstream Cache-Control %q reached the client as %q", vs, have)
-			}
-			continue
-		}
 		if !reflect.DeepEqual(have, vs) {
 			viol("header-changed", "upstream header %s %q reached the client as %q", k, vs, have)
 		}
